@@ -54,22 +54,12 @@ func canon(m *ir.Module, in ir.TypeInner) ir.TypeInner {
 }
 
 // HandlesEqual reports whether two type handles denote the same type: the same
-// handle, or two anonymous types that are structurally equal.
+// handle, or two non-struct types with structurally equal inners.  Names are
+// ignored for non-struct types: `alias Vec4 = vec4<f32>` registers a named copy
+// of the anonymous vec4<f32>, and upstream naga compares such types by their
+// TypeInner.  Struct types are nominal: only the same handle is the same type.
 func HandlesEqual(m *ir.Module, a, b ir.TypeHandle) bool {
-	if a == b {
-		return true
-	}
-	if int(a) >= len(m.Types) || int(b) >= len(m.Types) {
-		return false
-	}
-	ta, tb := m.Types[a], m.Types[b]
-	if ta.Name != tb.Name {
-		return false
-	}
-	if _, isStruct := ta.Inner.(ir.StructType); isStruct {
-		return false // distinct struct declarations are distinct types
-	}
-	return innersEqual(m, ta.Inner, tb.Inner, 0)
+	return handlesEqualD(m, a, b, 0)
 }
 
 // InnersEqual compares two TypeInners structurally up to pointer /
@@ -157,10 +147,10 @@ func handlesEqualD(m *ir.Module, a, b ir.TypeHandle, depth int) bool {
 		return false
 	}
 	ta, tb := m.Types[a], m.Types[b]
-	if ta.Name != tb.Name {
-		return false
-	}
 	if _, isStruct := ta.Inner.(ir.StructType); isStruct {
+		return false // distinct struct declarations are distinct types
+	}
+	if _, isStruct := tb.Inner.(ir.StructType); isStruct {
 		return false
 	}
 	return innersEqual(m, ta.Inner, tb.Inner, depth)
